@@ -356,7 +356,27 @@ def rule_sweep(ctx):
                 res.instance("%s : feature sweep over `%s`" % (key, r.e(it)[:50]))
                 chain = rowindex._chain(it, inits)
                 cut = [x for x in chain if x in CUT]
-                if cut:
+                # a filter on the features may only drop empty columns (squared norm zero): screening by anything else - the
+                # correlation with the *target*, say - freezes a feature whose partial correlation is large
+                screened = None
+                srcs = [it]
+                i0_ = peel_refs(it)
+                if i0_.get("k") == "Path" and i0_.get("local") in inits:
+                    srcs.append(inits[i0_["local"]])
+                for e_ in srcs:
+                    for y in walk(e_):
+                        if y.get("k") == "MethodCall" and y["name"] in ("filter", "filter_map") and y["args"] and strip(y["args"][0]).get("k") == "Closure":
+                            clo = strip(y["args"][0])
+                            own = {b["local"] for p_ in clo["params"] for b in pat_bindings(p_)}
+                            for z in walk(clo["body"]):
+                                if z.get("k") == "Path" and "local" in z and z["local"] not in own:
+                                    ini = inits.get(z["local"])
+                                    is_norms = ini is not None and any(w.get("k") == "MethodCall" and w["name"] == "map_axis" for w in walk(ini)) and any(w.get("k") == "MethodCall" and w["name"] == "dot" for w in walk(ini))
+                                    if not is_norms and z.get("name") not in ("x",):
+                                        screened = (y, z.get("name"))
+                if screened:
+                    res.violate("%s : feature-sweep-screened:%s" % (key, screened[1]), "the features to visit are filtered by `%s`, a test that involves `%s`: only empty columns may be left out of the sweeps - a feature that is screened out by any other quantity keeps a zero coefficient although its partial correlation may exceed the threshold" % (r.e(screened[0]["args"][0])[:60], screened[1]), fn_loc(fn, node.get("ln")))
+                elif cut:
                     res.violate("%s : feature-sweep-truncated:%s" % (key, cut[0]), "the features to visit are selected with `%s`: that keeps a prefix (or a stride) of the features, not all of those with a non-zero column - every feature behind the cut keeps a zero coefficient" % cut[0], fn_loc(fn, node.get("ln")))
                 else:
                     res.ok()
@@ -517,6 +537,36 @@ def rule_gap(ctx):
             res.ok()
         else:
             res.undecided("%s : dual-norm-rank" % key, "rank of `%s` unknown (fail closed)" % r.e(nmx["recv"])[:40], fn_loc(fn, nmx.get("ln")))
+    # the l2,1 norm of W: the square root is taken per row, then the rows are summed
+    for fn in [f for f in gaps if f["d"]["name"] == "duality_gap_mtl"]:
+        c = fn["crate"]
+        r = Render(c)
+        key = fn_key(fn)
+        inits = {}
+        for y in walk(fn["body"]):
+            if y.get("k") == "LetStmt" and y.get("init") is not None and y["pat"].get("k") == "Bind":
+                inits[y["pat"]["local"]] = (y["pat"]["name"], y["init"])
+        res.instance("%s : l2,1 norm" % key)
+        cand = None
+        for y in walk(fn["body"]):
+            if y.get("k") == "Binary" and y["op"] == "*":
+                for a, b in ((y["l"], y["r"]), (y["r"], y["l"])):
+                    a0, b0 = peel_refs(a), peel_refs(b)
+                    if a0.get("k") == "Path" and b0.get("k") == "Path" and a0.get("local") in inits and b0.get("local") in inits:
+                        ia = inits[a0["local"]][1]
+                        ib = inits[b0["local"]][1]
+                        if any(w.get("k") == "Path" and w.get("name") == "l1_ratio" for w in walk(ia)) and any(w.get("k") == "MethodCall" and w["name"] == "sqrt" for w in walk(ib)):
+                            cand = (b0, ib)
+        if cand is None:
+            res.undecided("%s : l21-term" % key, "the `l1_reg * ||W||_2,1` term was not found (fail closed)", fn_loc(fn))
+            continue
+        top = peel_refs(cand[1])
+        if top.get("k") == "MethodCall" and top["name"] == "sqrt" and any(w.get("k") == "MethodCall" and w["name"] == "sum" for w in walk(top["recv"])):
+            res.violate("%s : l21-norm-root-after-row-sum" % key, "`%s`: the square root is taken after the sum over the rows - that is the Frobenius norm, smaller than the l2,1 norm as soon as two rows are non-zero; the reported gap is then too small (negative) and no upper bound" % r.e(top)[:60], fn_loc(fn, top.get("ln")))
+        elif top.get("k") == "MethodCall" and top["name"] == "sum":
+            res.ok()
+        else:
+            res.undecided("%s : l21-form" % key, "`%s` (fail closed)" % r.e(top)[:50], fn_loc(fn, top.get("ln")))
     return res.finish(6)
 
 
